@@ -20,6 +20,15 @@ CHECKS = {
  "C04": dict(tech="TLC trace validation: device events by role; parameter positions read by TLC from the library text of the working tree",
    text="71 device statement / function forms x presence patterns of optional operands x operand shapes (literal, variable, expression, parenthesised, convertible function) are converted by the real tool; Trace_C04.tla runs source and target: the source emits dev(procedure, operand values by role with the documented defaults), the target's RUN arguments are mapped through the PARAM names parsed from ecb.b09; plus the HBUFF prologue iff clause.",
    note="Trusted: as C01, and the role table DevSig in Machine.tla (Appendix A of DESIGN.md). If a library parameter is renamed the check falls back to the pinned position.", ref="5 C04"),
+ "C06": dict(tech="TLC static obligations over the parse of source and output (reference graph, label set, markers) plus TLC execution of the 32700 dispatcher",
+   text="GenProg.tla puts one of 13 reference positions (GOTO, GOSUB, THEN/ELSE lines, nested IF, ELSE-IF arms, ON lists, ON ERR, ON BRK) with one of five target kinds (itself, another line, line 0, missing, above 32699) on every line of 1-3 line programs under five numberings (incl. 0, 32699, 32700); Trace_C06.tla computes from the source parse the expected refusal class or the expected label set for filter on/off, and checks labels, jump targets, per-line markers and the dispatcher on the emitted text.",
+   note="Trusted: B09/Decb parsers. Refusals are classified by exception type name only. The dispatcher is judged twice: as written, and assuming its error-code variable held the code (so routing is still checked behind the known errnum finding).", ref="5 C06"),
+ "C07": dict(tech="TLC push-down recogniser over the emitted token stream (trace = tokens, actions = statement and block keywords)",
+   text="B09.tla is a recogniser for BASIC09: statement forms, expression grammar with every operator/call operand present, declarations, block keywords matched with a stack. Trace_C07.tla accepts a trace iff all tokens are consumed with an empty stack. Inputs: each of 226 statement forms alone, edge programs, the bundled examples and GenProg.tla random programs over all statement kinds x option sets; the recogniser itself must accept the hand-written 1425-line runtime library.",
+   note="Trusted: my BASIC09 grammar (reserved words taken from the basic09 binary on the playground disk); permissive where unsure (unary plus, text after THEN). Type correctness of boolean/numeric mixes is not part of this property.", ref="5 C07"),
+ "C09": dict(tech="TLC model checking of the naming convention over a name space + TLC set comparison of output identifiers with the images of the source variables",
+   text="Names.tla: 1.26M states (all pairs of names up to 4 characters over a small alphabet x kinds) satisfy Faithful (same Color BASIC identity <=> same target identifier) and NoCollision. GenSeq.tla enumerates all 962 names of length 1-2 and 3240 keyword-spelling names of length 3-4; pairs are placed in 36 syntactic positions of one program; Trace_C09.tla demands that the identifiers of the real output equal the images of the source variables.",
+   note="Trusted: lexer shim, the list of generated identifiers (TargetOnly in Machine.tla).", ref="5 C09"),
 }
 NA_REASON = "check not built yet in this round (work in progress; see DESIGN.md Appendix D)"
 m = {"version": 1, "setup_cmd": "cd /verif && ./setup.sh",
